@@ -3,6 +3,7 @@
 package c10
 
 import (
+	"os"
 	"bytes"
 	"encoding/json"
 	"fmt"
@@ -276,6 +277,12 @@ func TestP2OwnOutput(t *testing.T) {
 }
 
 func TestReplay(t *testing.T) {
+	if msg, ok := replayFuzzCase(os.Getenv("VERIF_REPLAY")); ok {
+		if msg != "" {
+			t.Fatalf("%s", msg)
+		}
+		return
+	}
 	rc, err := ev.LoadReplay()
 	if err != nil {
 		t.Fatal(err)
